@@ -17,19 +17,23 @@ class FatIO(io.RawIOBase):
 
     def __init__(self, fs: PyFat,
                  path: str,
-                 mode: Mode = Mode('r')) -> None:
+                 mode: Mode = Mode('r'),
+                 lock=None) -> None:
         """Wrap basic I/O operations for PyFat. **Currently read-only**.
 
         :param fs: `PyFat`: Instance of opened filesystem
         :param path: `str`: Path to file. If `mode` is *r*,
                             the file must exist.
         :param mode: `Mode`: Mode to open file in.
+        :param lock: Re-entrant lock serializing modifications of the
+                     filesystem (shared by all handles of a filesystem),
+                     defaults to a lock private to this handle.
         """
         super(FatIO, self).__init__()
         self.mode = mode
         self.fs = fs
         self.name = str(path)
-        self._lock = threading.Lock()
+        self._lock = lock if lock is not None else threading.RLock()
 
         self.dir_entry = self.fs.root_dir.get_entry(path)
         if self.dir_entry.is_directory() or self.dir_entry.is_special():
@@ -125,10 +129,11 @@ class FatIO(io.RawIOBase):
 
     def close(self) -> None:
         """Close open file handles assuming lock handle."""
-        self.seek(0)
-        if self.mode.writing:
-            self.fs.flush_fat()
-        super().close()
+        with self._lock:
+            self.seek(0)
+            if self.mode.writing:
+                self.fs.flush_fat()
+            super().close()
 
     def readable(self) -> bool:
         """Determine whether the file is readable."""
